@@ -268,6 +268,7 @@ const prelude = `(set-logic ALL)
 (declare-fun sat (Str Int) Int)
 (declare-datatypes ((Slice 0)) (((mk-slice (s-arr Int) (s-off Int) (s-len Int) (s-cap Int)))))
 (declare-datatypes ((Iface 0)) (((mk-iface (i-tag Int) (i-val Int)))))
+(declare-datatypes ((Lv 0)) (((lnil) (lcons (lhd Str) (ltl Lv)))))
 (assert (forall ((s Str)) (! (and (>= (slen s) 0) (<= (slen s) 281474976710656)) :pattern ((slen s)))))
 (assert (forall ((s Str) (i Int)) (! (and (<= 0 (sat s i)) (<= (sat s i) 255)) :pattern ((sat s i)))))
 (declare-fun box$Str (Str) Int)
